@@ -20,6 +20,7 @@ type Obligation struct {
 	Note   string
 	// Cover obligations are expected to be SAT (vacuity guards).
 	Cover bool
+	Group string
 	unit  *VC
 }
 
@@ -32,6 +33,8 @@ type VC struct {
 	decls  []string
 	declOf map[string]bool
 	facts  []string
+	fgroup []string // proof group of each fact ("" = visible to all)
+	curGroup string
 	Obls   []*Obligation
 	n      int
 	wf     map[string]bool
@@ -85,6 +88,7 @@ func (vc *VC) fact(f string) {
 		return
 	}
 	vc.facts = append(vc.facts, f)
+	vc.fgroup = append(vc.fgroup, vc.curGroup)
 }
 
 // define introduces a named abbreviation for term (keeps VCs small and models readable).
@@ -171,7 +175,10 @@ func (o *Obligation) Query(produceModels bool) string {
 		b.WriteString(f)
 		b.WriteString(")\n")
 	}
-	for _, f := range vc.facts[:o.NFacts] {
+	for i, f := range vc.facts[:o.NFacts] {
+		if g := vc.fgroup[i]; g != "" && g != o.Group {
+			continue
+		}
 		b.WriteString("(assert ")
 		b.WriteString(f)
 		b.WriteString(")\n")
